@@ -37,6 +37,7 @@ pub struct ExecOut {
 }
 
 pub fn exec(in_path: &str, out_path: &str, cfg: &OligoCfg, s: &Sched) -> ExecOut {
+    crate::io::plant_stale(std::path::Path::new(out_path));
     let log: Arc<Mutex<Vec<(usize, usize, usize)>>> = Arc::new(Mutex::new(Vec::new()));
     let oob: Arc<Mutex<Option<(usize, usize, usize)>>> = Arc::new(Mutex::new(None));
     let (l2, o2) = (log.clone(), oob.clone());
